@@ -60,6 +60,11 @@ func main() {
 		usage()
 	}
 	switch os.Args[1] {
+	case "replay":
+		if len(os.Args) < 3 {
+			usage()
+		}
+		os.Exit(replayFile(os.Args[2]))
 	case "fn":
 		fs := flag.NewFlagSet("fn", flag.ExitOnError)
 		t := fs.Int("t", 10, "timeout per obligation (s)")
